@@ -217,7 +217,7 @@ func (h *hist) apply(op hOp) error {
 			lock = sdkvesting.Periods{p(500, half), p(500000, q), p(500000, new(big.Int).Sub(rest, q))}
 		default: // lockup partly released, vesting instant
 			start = c.Hdr.Time.Add(-10 * time.Second)
-			vestp = sdkvesting.Periods{p(0, amt)}
+			vestp = sdkvesting.Periods{p(1, amt)}
 			lock = sdkvesting.Periods{p(5, half), p(1000000, rest)}
 		}
 		msg := vestingtypes.NewMsgCreateClawbackVestingAccount(chainAcct(a).Acc, to, start, lock, vestp, false)
@@ -798,6 +798,11 @@ func genesisRunCase(id string, in hInput) []Case {
 	obs.Sizes["dao_holders"] = len(c.App.DaoKeeper.GetAccountsBalances(ctx1))
 	obs.Sizes["blocks"] = len(in.Blocks)
 
+	if coq, err := genesisCoq(c.App, ctx1, gs1, gs2, height, c.Time); err == nil {
+		main.Coq, main.CoqList = coq, "cases"
+	} else {
+		obs.Errs = append(obs.Errs, "coq rendering: "+err.Error())
+	}
 	main.Obs = obs
 	main.OracleOK = len(msgs) == 0
 	main.OracleMsg = strings.Join(msgs, "; ")
@@ -842,6 +847,7 @@ func genHistory(r *Rng, nBlocks, opsPerBlock int) hInput {
 	in := hInput{}
 	big1 := func(lo, hi int64) string { return islm(lo + int64(r.Intn(int(hi-lo+1)))).String() }
 	nVest, nLiquid, nContracts, nCoins := 0, 0, 0, 0
+	funded, liquidHolder, coinOwner := []int{}, []int{}, []int{}
 	for b := 0; b < nBlocks; b++ {
 		blk := hBlock{Dt: 1 + int64(r.Intn(20))}
 		switch r.Intn(8) {
@@ -892,24 +898,58 @@ func genHistory(r *Rng, nBlocks, opsPerBlock int) hInput {
 				if nVest == 0 {
 					op = hOp{Op: "vest", A: a, Kind: 1, Amt: big1(2000, 9000)}
 					nVest++
+				} else if nLiquid > 0 && r.Chance(35) {
+					d := r.Intn(nLiquid)
+					op = hOp{Op: "redeem", A: liquidHolder[d], B: bb, K: uint64(d), Amt: big1(1, 300), Kind: r.Intn(2)}
 				} else {
 					op = hOp{Op: "liquidate", A: a, B: r.Intn(nVest), Amt: big1(1000, 1500), Kind: r.Intn(3) / 2}
-					nLiquid++
+					if op.Kind == 0 { // the steering shadow assumes success; precision is irrelevant
+						liquidHolder = append(liquidHolder, a)
+						nLiquid++
+					}
 				}
 			case k < 63:
-				op = hOp{Op: "redeem", A: a, B: bb, K: uint64(r.Intn(nLiquid + 1)), Amt: big1(1, 400), Kind: r.Intn(2)}
+				if nLiquid == 0 {
+					op = hOp{Op: "daofund", A: a, Amt: big1(1, 50)}
+					funded = append(funded, a)
+				} else {
+					d := r.Intn(nLiquid)
+					op = hOp{Op: "redeem", A: liquidHolder[d], B: bb, K: uint64(d), Amt: big1(1, 300), Kind: r.Intn(2)}
+					if r.Chance(15) {
+						op.A = a
+					}
+				}
 			case k < 73:
-				op = hOp{Op: "daofund", A: a, K: uint64(r.Intn(nLiquid + 1)), Amt: big1(1, 50), Kind: r.Intn(2)}
+				op = hOp{Op: "daofund", A: a, Amt: big1(1, 50)}
+				if nLiquid > 0 && r.Chance(45) {
+					d := r.Intn(nLiquid)
+					op = hOp{Op: "daofund", A: liquidHolder[d], K: uint64(d), Amt: big1(1, 40), Kind: 1}
+				}
+				funded = append(funded, op.A)
 			case k < 79:
+				if len(funded) > 0 && r.Chance(85) {
+					a = funded[r.Intn(len(funded))]
+				}
 				op = hOp{Op: "daotransfer", A: a, B: bb, Kind: r.Intn(2)}
 				if r.Bool() {
 					op.Amt = big1(1, 3)
 				}
+				if op.Kind == 0 {
+					funded = append(funded, bb)
+				}
 			case k < 83:
 				op = hOp{Op: "regcoin", A: a, Amt: fmt.Sprint(1000 + r.Intn(1000000))}
+				coinOwner = append(coinOwner, a)
 				nCoins++
 			case k < 87:
-				op = hOp{Op: "convert", A: a, B: bb, K: uint64(r.Intn(nCoins + 1)), Amt: fmt.Sprint(1 + r.Intn(900))}
+				if nCoins == 0 {
+					op = hOp{Op: "regcoin", A: a, Amt: fmt.Sprint(1000 + r.Intn(1000000))}
+					coinOwner = append(coinOwner, a)
+					nCoins++
+				} else {
+					d := r.Intn(nCoins)
+					op = hOp{Op: "convert", A: coinOwner[d], B: bb, K: uint64(d), Amt: fmt.Sprint(1 + r.Intn(300))}
+				}
 			case k < 89:
 				op = hOp{Op: "toggle", K: uint64(r.Intn(nCoins + nLiquid + 1))}
 			case k < 92:
